@@ -3627,6 +3627,11 @@ impl CanonicalizeContext {
 			if !is_int(&first_child) {
 				return Ok( false );
 			}
+			// this is a look ahead: canonicalizing an mrow moves its children into a new mrow, so doing that here would empty the mrow in the tree
+			// an mrow can't be a '/' or an integer, so there is no need to look inside
+			if name(&as_element(fraction_children[1])) == "mrow" || name(&as_element(fraction_children[2])) == "mrow" {
+				return Ok( false );
+			}
 			let slash_part = canonicalize.canonicalize_mrows(as_element(fraction_children[1]))?;
 			if name(&slash_part) == "mo" && as_text(slash_part) == "/" {
 				let denom = canonicalize.canonicalize_mrows(as_element(fraction_children[2]))?;
